@@ -19,6 +19,8 @@ type Net struct {
 	gen       atomic.Int64
 	Dials     []DialRecord // every dial attempt of the library (active role)
 	Listens   []time.Time  // every listen call of the library (passive role)
+	DialOverlap   int      // max number of library-owned sockets still open at the moment a new dial succeeded
+	ListenOverlap int      // max number of library-owned listeners still open at the moment a new Listen succeeded
 
 	// active-role routing: where library dials go
 	target  atomic.Pointer[string] // "host:port" of the peer listener; nil => refuse
@@ -69,6 +71,17 @@ func (n *Net) Dial(ctx context.Context, network, _ string) (net.Conn, error) {
 		n.mu.Unlock()
 		return nil, err
 	}
+	n.mu.Lock()
+	open := 0
+	for _, oc := range n.conns {
+		if !oc.closed.Load() {
+			open++
+		}
+	}
+	if open > n.DialOverlap {
+		n.DialOverlap = open
+	}
+	n.mu.Unlock()
 	w := n.wrap(c)
 	rec.OK, rec.Gen = true, w.Gen
 	n.mu.Lock()
@@ -86,6 +99,15 @@ func (n *Net) Listen(ctx context.Context, network, _ string) (net.Listener, erro
 	}
 	w := &WListener{Listener: l, n: n, Opened: time.Now()}
 	n.mu.Lock()
+	openL := 0
+	for _, ol := range n.listeners {
+		if !ol.closed.Load() {
+			openL++
+		}
+	}
+	if openL > n.ListenOverlap {
+		n.ListenOverlap = openL
+	}
 	n.listeners = append(n.listeners, w)
 	n.Listens = append(n.Listens, w.Opened)
 	n.mu.Unlock()
@@ -122,6 +144,13 @@ func (n *Net) WaitListener(d time.Duration) *WListener {
 		time.Sleep(200 * time.Microsecond)
 	}
 	return nil
+}
+
+// Overlaps returns the generation-overlap high-water marks.
+func (n *Net) Overlaps() (dial, listen int) {
+	n.mu.Lock()
+	defer n.mu.Unlock()
+	return n.DialOverlap, n.ListenOverlap
 }
 
 // OpenSockets / OpenListeners: what the library has not closed.
